@@ -42,30 +42,66 @@ class ShellWouldBlock(Exception):
     (unterminated quote): a real persistent shell waits for ever for the rest."""
 
 
+def _may_be_incomplete(text: str) -> bool:
+    """Cheap pre-filter for the `sh -n` guard: False only when a plain scan of the quoting proves
+    that every quote is closed and the text uses none of the constructs the scan does not
+    understand (command substitution, here-documents, comments, line continuation)."""
+    if "`" in text or "$(" in text or "<<" in text or "#" in text or "\\\n" in text:
+        return True
+    i, n, state = 0, len(text), ""
+    while i < n:
+        c = text[i]
+        if state == "":
+            if c == "\\":
+                i += 1
+            elif c in "'\"":
+                state = c
+        elif state == "'":
+            if c == "'":
+                state = ""
+        else:
+            if c == "\\":
+                i += 1
+            elif c == '"':
+                state = ""
+        i += 1
+    return state != "" or i > n
+
+
+class CommandBudgetExceeded(Exception):
+    """One StreamFlow call issued more remote commands than the driver allows (a loop that never
+    ends, e.g. a directory walk that keeps re-listing the same directory)."""
+
+
 class Toolbox:
     """Template root with the tools the StreamFlow commands need; `new_root(name)` hard-links a copy."""
 
-    def __init__(self, base: str):
+    def __init__(self, base: str, template: str | None = None):
         self.base = os.path.realpath(base)
-        self.template = os.path.join(self.base, "_template")
+        os.makedirs(self.base, exist_ok=True)
+        self.template = template or os.path.join(self.base, "_template")
         self.count = 0
-        self._build()
+        if not os.path.exists(os.path.join(self.template, ".complete")):
+            self._build()
+            open(os.path.join(self.template, ".complete"), "w").close()
 
     def _build(self):
         r = self.template
         for d in ("bin", "tmp", "dev"):
             os.makedirs(os.path.join(r, d), exist_ok=True)
         libs = set()
+        bins = []
         for b in TOOLS:
             p = shutil.which(b, path="/usr/bin:/bin")
             if p is None:
                 continue
             p = os.path.realpath(p)
             shutil.copy2(p, os.path.join(r, "bin", b))
-            out = subprocess.run(["ldd", p], stdout=subprocess.PIPE, stderr=subprocess.DEVNULL, text=True).stdout
-            for tok in out.split():
-                if tok.startswith("/"):
-                    libs.add(tok)
+            bins.append(p)
+        out = subprocess.run(["ldd"] + bins, stdout=subprocess.PIPE, stderr=subprocess.DEVNULL, text=True).stdout
+        for tok in out.split():
+            if tok.startswith("/") and not tok.endswith(":"):
+                libs.add(tok)
         for lib in sorted(libs):
             dst = r + lib
             os.makedirs(os.path.dirname(dst), exist_ok=True)
@@ -87,6 +123,7 @@ class Toolbox:
         self.count += 1
         root = os.path.join(self.base, "%s_%d" % (name, self.count))
         subprocess.run(["cp", "-al", self.template, root], check=True)
+        os.unlink(os.path.join(root, ".complete"))
         os.chmod(os.path.join(root, "tmp"), 0o1777)
         return root
 
@@ -120,8 +157,8 @@ def _connector_class():
             text = _build_shell_command(end_marker="SF_CMD_END_probe", command=command,
                                         shell_class="probe", shell_cmd=["sh"], environment=environment,
                                         workdir=workdir)
-            self.owner.commands.append(" ".join(command))
-            if any(c in text[:-len('echo "SF_CMD_END_probe:$?"\n')] for c in "'\"`\\$({<"):
+            self.owner.spend(" ".join(command))
+            if _may_be_incomplete(text):
                 p = await asyncio.create_subprocess_exec("/bin/sh", "-n", "-c", text, stdin=asyncio.subprocess.DEVNULL,
                                                          stdout=asyncio.subprocess.DEVNULL,
                                                          stderr=asyncio.subprocess.PIPE)
@@ -138,6 +175,14 @@ def _connector_class():
             self.roots = dict(roots)
             self.guard = guard
             self.commands: list = []       # every command text sent to a location (diagnostics)
+            self.budget: int | None = None  # commands the current call may still issue (None: unlimited)
+
+        def spend(self, text: str):
+            self.commands.append(text)
+            if self.budget is not None:
+                self.budget -= 1
+                if self.budget < 0:
+                    raise CommandBudgetExceeded(text)
 
         @classmethod
         def get_schema(cls) -> str:
@@ -176,13 +221,13 @@ def _connector_class():
                     for n in self.roots}
 
         async def get_stream_reader(self, command, location):
-            self.commands.append(" ".join(command))
+            self.spend(" ".join(command))
             return SubprocessStreamReaderWrapperContextManager(coro=asyncio.create_subprocess_exec(
                 *self._get_run_command(" ".join(command), location), env=self._env(),
                 stdin=asyncio.subprocess.DEVNULL, stdout=asyncio.subprocess.PIPE, stderr=asyncio.subprocess.DEVNULL))
 
         async def get_stream_writer(self, command, location):
-            self.commands.append(" ".join(command))
+            self.spend(" ".join(command))
             return SubprocessStreamWriterWrapperContextManager(coro=asyncio.create_subprocess_exec(
                 *self._get_run_command(" ".join(command), location), env=self._env(),
                 stdin=asyncio.subprocess.PIPE, stdout=asyncio.subprocess.DEVNULL, stderr=asyncio.subprocess.DEVNULL))
@@ -197,7 +242,7 @@ def _connector_class():
                         command=command, environment=environment, workdir=workdir,
                         capture_output=capture_output, timeout=timeout)
             cmd = utils.create_command(self.__class__.__name__, command, environment, workdir, stdin, stdout, stderr)
-            self.commands.append(cmd)
+            self.spend(cmd)
             proc = await asyncio.create_subprocess_exec(
                 *self._get_run_command(cmd, location), env=self._env(), stdin=asyncio.subprocess.DEVNULL,
                 stdout=asyncio.subprocess.PIPE if capture_output else asyncio.subprocess.DEVNULL,
@@ -247,39 +292,45 @@ def real(root: str | None, path: str) -> str:
 
 
 def snapshot(root: str | None, top: str, with_content: bool = True) -> dict:
-    """{relative path: entry} for everything below `top` (not followed).  entry = kind/mode/content|target/ino."""
+    """{relative path: entry} for everything below `top` (links are never followed).
+    entry = kind + mode + content | link target (+ inode number for regular files)."""
     out = {}
     base = real(root, top)
-    if not os.path.lexists(base):
+    try:
+        st = os.lstat(base)
+    except OSError:
+        return out
+    if not stat.S_ISDIR(st.st_mode):
+        out["."] = _entry(base, st, with_content)
         return out
     stack = [""]
     while stack:
         rel = stack.pop()
         p = os.path.join(base, rel) if rel else base
-        try:
-            names = os.listdir(p)
-        except NotADirectoryError:
-            names = None
-        if rel or names is None:
-            st = os.lstat(p)
-            if stat.S_ISLNK(st.st_mode):
-                out[rel or "."] = {"kind": "l", "target": os.readlink(p)}
-            elif stat.S_ISDIR(st.st_mode):
-                out[rel] = {"kind": "d", "mode": stat.S_IMODE(st.st_mode)}
-            elif stat.S_ISREG(st.st_mode):
-                e = {"kind": "f", "mode": stat.S_IMODE(st.st_mode), "ino": st.st_ino, "nlink": st.st_nlink}
-                if with_content:
-                    with open(p, "rb") as f:
-                        e["content"] = f.read()
-                else:
-                    e["size"] = st.st_size
-                out[rel or "."] = e
-            else:
-                out[rel or "."] = {"kind": "?", "mode": stat.S_IMODE(st.st_mode)}
-        if names is not None and not os.path.islink(p):
-            for n in names:
-                stack.append(os.path.join(rel, n) if rel else n)
+        for n in os.listdir(p):
+            r = os.path.join(rel, n) if rel else n
+            q = os.path.join(base, r)
+            st = os.lstat(q)
+            out[r] = _entry(q, st, with_content)
+            if stat.S_ISDIR(st.st_mode):
+                stack.append(r)
     return out
+
+
+def _entry(p, st, with_content):
+    if stat.S_ISLNK(st.st_mode):
+        return {"kind": "l", "target": os.readlink(p)}
+    if stat.S_ISDIR(st.st_mode):
+        return {"kind": "d", "mode": stat.S_IMODE(st.st_mode)}
+    if stat.S_ISREG(st.st_mode):
+        e = {"kind": "f", "mode": stat.S_IMODE(st.st_mode), "ino": st.st_ino, "nlink": st.st_nlink}
+        if with_content:
+            with open(p, "rb") as f:
+                e["content"] = f.read()
+        else:
+            e["size"] = st.st_size
+        return e
+    return {"kind": "?", "mode": stat.S_IMODE(st.st_mode)}
 
 
 def stray(root: str) -> list:
